@@ -3,6 +3,7 @@ Tie: `compatible` is regenerated from resolve.py (py2v) and the theorems are re-
 match_bonding_descriptors / edges_from_bonding_descrpt are hand-modelled (Resolve/Bonding.v) and
 compared with the implementation on every run by wrapping the method inside a real resolve()."""
 import copy
+import re
 import networkx as nx
 
 import common
@@ -28,6 +29,25 @@ def tables(meta):
     return st
 
 
+def make_resolver(case):
+    """the resolver of a case through the constructor it names: the whole string, the base graph given as a
+    networkx graph (from_graph), or the fragments given as graphs (from_fragment_dicts).  The base graph is
+    always the one read_cgsmiles reads from the string, so the three must behave alike."""
+    from cgsmiles.resolve import MoleculeResolver
+    from cgsmiles.read_cgsmiles import read_cgsmiles
+    ctor = case.get('ctor', 'string')
+    s = case['s']
+    kw = dict(last_all_atom=case['aa'], legacy=case['legacy'])
+    if ctor == 'string':
+        return MoleculeResolver.from_string(s, **kw)
+    base, frs = s.split('.{', 1)
+    frs = '{' + frs
+    if ctor == 'graph':
+        return MoleculeResolver.from_graph(frs, read_cgsmiles(base), **kw)
+    dicts = MoleculeResolver.read_fragment_strings(re.findall(r"\{[^\}]+\}", frs), last_all_atom=case['aa'])
+    return MoleculeResolver.from_fragment_dicts(base, dicts, **kw)
+
+
 class C03(common.Prop):
     id = 'C03'
     level = 'proof'
@@ -47,6 +67,8 @@ class C03(common.Prop):
                  5: 'a descriptor was used for more bonds than it was written',
                  6: 'fewer bonds than the edge order although a compatible pair was left',
                  9: 'implementation raised an unexpected exception',
+                 108: 'the base edges (or their orders) the bond-creation step works with are not those the base graph has '
+                      '(an order-0 edge must stay bond-free through every constructor)',
                  107: 'a fragment template does not carry the descriptors its text writes, on the atoms it writes them after'}
 
     def corpus(self, ctx):
@@ -58,6 +80,11 @@ class C03(common.Prop):
             {'s': '{[#A]1[#A][#A]1}.{#A=[$]cc[$]}', 'legacy': True, 'aa': True},
             {'s': '{[#A]#[#B]}.{#A=[$]=[#X][$][#Y][$A],#B=[#P][$][$]=[$A]}', 'legacy': True, 'aa': False},
             {'s': '{[#A].[#B][#C]}.{#A=[$]C,#B=[$]C[$],#C=[$]C}', 'legacy': True, 'aa': True},
+            # the same through the other constructors; order-0 edges with descriptors left over at both ends
+            {'s': '{[#A].[#B][#C]}.{#A=[$]C,#B=[$]C[$],#C=[$]C}', 'legacy': True, 'aa': True, 'ctor': 'graph'},
+            {'s': '{[#P][#P].[#P][#P]}.{#P=[$]COC[$]}', 'legacy': True, 'aa': True, 'ctor': 'graph'},
+            {'s': '{[#P][#P].[#P][#P]}.{#P=[>]CC[<]}', 'legacy': False, 'aa': True, 'ctor': 'dicts'},
+            {'s': '{[#P][#P].[#P][#P]}.{#P=[$][#X][#Y][$]}', 'legacy': False, 'aa': False, 'ctor': 'graph'},
         ]
 
     def generate(self, ctx, n):
@@ -71,14 +98,15 @@ class C03(common.Prop):
             labels = rng.choice([('',), ('', 'A'), ('', '', 'A', 'B', '1')])
             expect = {}
             frs = gens.rand_fragment_set(rng, names, all_atom=aa, max_desc=4, expect=expect, kinds=kinds, labels=labels)
-            out.append({'s': base + '.' + frs, 'legacy': rng.random() < 0.6, 'aa': aa, 'written': expect})
+            out.append({'s': base + '.' + frs, 'legacy': rng.random() < 0.6, 'aa': aa, 'written': expect,
+                        'ctor': rng.choice(['string', 'string', 'string', 'graph', 'graph', 'dicts'])})
         return out
 
     def run_impl(self, case):
         from cgsmiles.resolve import MoleculeResolver
         rec = {}
         try:
-            resolver = MoleculeResolver.from_string(case['s'], last_all_atom=case['aa'], legacy=case['legacy'])
+            resolver = make_resolver(case)
         except Exception as exc:          # input rejected before the code under test runs
             return {'skip': type(exc).__name__}
         orig = resolver.edges_from_bonding_descrpt
@@ -111,6 +139,13 @@ class C03(common.Prop):
         if any(not isinstance(o, int) or isinstance(o, bool) or o < 0 for _, _, o in rec['edges']):
             return {'skip': 'non-integer base order'}
         out = {'edges': rec['edges'], 's0': rec['s0'], 'arom': rec['arom']}
+        # the base graph as the string denotes it, read afresh (a constructor must not change its edge orders)
+        try:
+            from cgsmiles.read_cgsmiles import read_cgsmiles
+            fresh = read_cgsmiles(case['s'].split('.{', 1)[0])
+            out['written_edges'] = sorted([min(a, b), max(a, b), o] for a, b, o in fresh.edges(data='order'))
+        except Exception:
+            pass
         # what the fragment reader attached to the templates (clause "each bonded atom carried a descriptor")
         try:
             fd = resolver.fragment_dicts[0]
@@ -178,6 +213,9 @@ class C03(common.Prop):
     def extra_fail(self, case, impl):
         # the descriptors the templates carry must be the ones the fragment text writes, on the atoms it
         # writes them after (generator-known; search side only)
+        if 'written_edges' in impl and 'edges' in impl:
+            if sorted([min(a, b), max(a, b), o] for a, b, o in impl['edges']) != impl['written_edges']:
+                return 108
         written = case.get('written')
         if not written or 'templates' not in impl:
             return 0
